@@ -210,7 +210,7 @@ func (ex *Exec) call(fr *Frame, st *State, instr ssa.Value, com *ssa.CallCommon,
 // small external leaf functions executed from their real source
 var inlineLeaves = map[string]bool{
 	"(encoding/binary.bigEndian).PutUint64":                          true,
-	"(encoding/binary.bigEndian).Uint64":                             true,
+	"(encoding/binary.bigEndian).Uint64":                             false,
 	"github.com/cosmos/cosmos-sdk/types/address.LengthPrefix":        true,
 	"github.com/cosmos/cosmos-sdk/types/address.MustLengthPrefix":    true,
 	"github.com/cosmos/cosmos-sdk/types.ParseLengthPrefixedBytes":    true,
